@@ -13,6 +13,8 @@ from harness.props import c14
 THEOREMS = [
     "LoadTree.C15_unreachable", "LoadTree.C15_uninstrumented", "LoadTree.C15_same_as_fresh",
     "LoadTree.C15_ids_not_reused", "LoadTree.C15_no_discard_false",
+    "LoadTree.C15_no_key_left", "LoadTree.C15_nothing_registered", "LoadTree.C15_fail_iff", "LoadTree.C15_history",
+    "LoadTree.C15_history_clean", "LoadTree.C15_same_as_fresh_history", "LoadTree.C15_pinned_false",
 ]
 
 
@@ -25,16 +27,35 @@ class Prop(c14.Prop):
     RULE = ("failing load attempts: 13 fault kinds (cycled) x user classes on/off (7 variants) x single / multi-file x nested "
             "loads x global repository; non-trivial = the attempt failed after at least one model object existed "
             "(an event was logged or a class was instrumented)")
-    MODELLED = (c14.Prop.MODELLED + "; roots modelled: class instrumentation state and _tx_obj_attrs keys; weakref/gc "
+    MODELLED = (c14.Prop.MODELLED + "; roots modelled: class instrumentation state and _tx_obj_attrs keys; history: the later attempt of the probe "
+                "(repaired files, same metamodel) is compared with runNext on runHist (ok, events, snapshots); weakref/gc "
                 "liveness is observed on the implementation only (census of live instances after gc.collect())")
     PROBE = True
     FAULTS = [i for i, f in enumerate(lt.FAULTS) if f[0] != "none"]
 
     def model_req(self, case, obs):
-        return lt.lean_request(case)
+        # history: the failing attempt, then the repaired tree with the same metamodel (the probe of run_case)
+        then = [lt.repaired(case["loads"][0])] if obs.get("probe_run") else None
+        return lt.lean_request(case, then=then)
 
     def compare(self, case, obs, out):
-        return c14.compare_run(case, obs, out)
+        d = c14.compare_run(case, obs, out)
+        if d or not obs.get("probe_run"):
+            return d
+        later = out.get("then")
+        if not later or len(later) != 1:
+            return f"model gave no answer for the later attempt: {later}"
+        a, b = obs["probe_run"], later[0]
+        if a["ok"] != b["ok"]:
+            return f"later attempt (repaired files, same metamodel): implementation ok={a['ok']}, model ok={b['ok']}"
+        ie, me = a["events"], b["events"]
+        for i in range(max(len(ie), len(me))):
+            x = ie[i] if i < len(ie) else None
+            y = me[i] if i < len(me) else None
+            if x != y:
+                return (f"later attempt (repaired files, same metamodel), event {i}: implementation {c14.fmt_ev(x)}, "
+                        f"model {c14.fmt_ev(y)}")
+        return None
 
     def oracle(self, case, obs):
         if obs["ok"]:
